@@ -61,7 +61,7 @@ def attribute(run, line, verdict):
         return "C01+C06+C11"      # the caller or another unit is lost / the stream cannot be joined after set_main_sched
     if scn in ("ryt", "ytrace"):
         return "C02+C11"          # resume_yield_to with the yielder's pool served by other streams
-    if scn == "xjoin":
+    if scn in ("xjoin", "stacked"):
         return "C06"
     if scn == "cancelmix":
         return "C12+C03"          # cancellation while joining / being joined
@@ -154,7 +154,7 @@ def run_exec(pid, tier, seed, emphasis, scns=("exec",), pre=None):
     def applicable(scn, cfg, nes):
         if scn == "migrace" and (nes < 2 or cfg):
             return False
-        if scn == "xjoin" and (nes < 1 or cfg == 4):
+        if scn in ("xjoin", "stacked") and (nes < 1 or cfg == 4):
             return False            # shared pools: blocked units are not counted by the stop test (documented)
         if scn == "cancelmix" and nes < 1:
             return False
